@@ -1324,8 +1324,9 @@ class RealFloat(numbers.Rational):
 
         # step 6. check if rounding was exact (if so, we're done)
         if lost.is_zero():
-            # just choose one of the rounding modes (RTZ)
-            rand_rm = RoundingMode.RTZ
+            # either `self` is representable, or rounding to the extended
+            # precision already carried it onto a neighbour: stay on that side
+            rand_rm = RoundingMode.RAZ if abs(xr) > abs(self) else RoundingMode.RTZ
         else:
             # step 7. normalize `lost` so that `lost.n == n_rand`
             offset = lost._exp - (n_rand + 1)
